@@ -6,6 +6,7 @@
    failure are probed on the implementation only. *)
 From Coq Require Import ZArith List.
 From BS Require Import Word BumpSpec ChunkSpec Arena ArenaInv ArenaStats ArenaMisc ArenaExt VecCap VecCapProofs CapRefine.
+From BS.gen Require FixFacts.
 From BS.gen Require CapSites.
 Import ListNotations.
 Open Scope Z_scope.
@@ -103,6 +104,11 @@ Proof.
   assert (E : W <=? len + add = true) by (apply Z.leb_le; exact H). rewrite E. split; reflexivity.
 Qed.
 
+(* the repair of a genuine defect recorded in known_findings.json is still in place in the CURRENT source (tools/fixsites.py ->
+   gen/FixFacts.v, read out on every run): a `fixed:` entry suppresses nothing, and its syntactic return breaks this obligation *)
+Theorem C07_repair_in_place_defect3 : FixFacts.defect3_and_7_a_failed_or_panicking_append_restores_the_original_chunk = true.
+Proof. vm_compute. reflexivity. Qed.
+
 Print Assumptions C07_failed_alloc_keeps_current_chunk.
 Print Assumptions C07_fresh_chunk_fits.
 Print Assumptions C07_refused_is_error.
@@ -114,3 +120,4 @@ Print Assumptions C07_collection_failure_is_atomic.
 Print Assumptions C07_collection_overflow_is_error.
 Print Assumptions C07_zst_vector_never_overflows.
 Print Assumptions C07_growth_computations_of_the_source_report_overflow.
+Print Assumptions C07_repair_in_place_defect3.
